@@ -187,6 +187,16 @@ def benign_doc(rng):
             return {'data': body.encode('utf-8'), 'encoding': None,
                     'line_endings': None, 'type': 'binary'}
         body = clean(texts.text(rng, 'utf-8', lookalikes=False))
+        if rng.random() < 0.2:
+            # a diff OF a binary patch / of prose about one: the marker
+            # words inside ordinary diff lines, not at the start of a line
+            body = ''.join(rng.choice([
+                '+    delta %d\n', ' see delta %d\n', '-literal %d\n',
+                '+GIT binary patch delta %d\n', ' x delta %d y\n',
+                '+delta %d\n', ' literal %d\n', '@@ -1 +1 @@ delta %d\n',
+                '+...\n', ' ... delta %d\n']).replace('%d', str(
+                    rng.randrange(1000))) for _ in range(rng.randint(1, 6))
+            ) + body
         return {'data': body.encode('utf-8'), 'encoding': None,
                 'line_endings': None, 'type': rng.choice([None, 'text'])}
     doc = {'encoding': 'utf-8', 'changes': []}
